@@ -95,14 +95,17 @@ class Path:
         return z3.And(*self.pc) if self.pc else z3.BoolVal(True)
 
 
-def explore(fn, base=(), max_paths=100000, catch=(Exception,), check_cover=True):
+def explore(fn, base=(), max_paths=100000, catch=(Exception,), check_cover=True, max_seconds=None):
     """Run `fn()` on every feasible decision path.  Returns (paths, stats)."""
     global _current
     script = []
     paths = []
     queries = 0
     solver_s = 0.0
+    started = time.time()
     while True:
+        if max_seconds is not None and time.time() - started > max_seconds:
+            raise PathLimit(f"more than {max_seconds} s of paths")
         run = _Run(script, base)
         prev = _current
         _current = run
